@@ -91,6 +91,11 @@ def configs_for(prop, tier):
     Dm(E, (1, 'bugfix/s', 'stabilization/4.3.18'), no_octopus=True)
     Dm(A, p1, no_octopus=True)
     Dm(C, (1, 'feature/a', 'development/5.1'), no_octopus=True)
+    if prop == 'C08':
+        Dm(F, p1, no_octopus=True, interfere=True)
+    if prop in ('C01', 'C08'):
+        # queueing itself must not move a destination
+        cfg.append(dict(sc='AQ', shape=F, prs=[p1], opts=dict(no_octopus=True)))
     if tier == 'thorough':
         Dm(A, p1, no_octopus=False)
         Dm(E, (1, 'bugfix/s', 'stabilization/4.3.18'), no_octopus=False)
@@ -157,7 +162,8 @@ def make_harness_factory(prop, tier, seed, sample_mod):
                     extra['third_party'] = hook.state['log']
             elif c['sc'] == 'AQ':
                 repo, host, out1, out = GF.scenario_queue_then_merge(
-                    ctx, shape, prs[0], nat, no_octopus=c['opts'].get('no_octopus', True))
+                    ctx, shape, prs[0], nat, no_octopus=c['opts'].get('no_octopus', True),
+                    extra_monitors=mons if prop != 'C02' else None)
                 out = '%s/%s' % (out1, out)
                 scen = 'queue_then_merge'
             elif c['sc'] == 'S':
@@ -167,11 +173,16 @@ def make_harness_factory(prop, tier, seed, sample_mod):
                     no_octopus=c['opts'].get('no_octopus', False))
                 scen = 'skip_queue'
             else:
+                hook = None
+                if c['opts'].get('interfere'):
+                    hook = GF.make_interference(None, [p.src for p in prs])
                 repo, out = GF.scenario_direct_merge(
                     ctx, shape, prs[0], nat, mons, pre=pre_for(prop, c),
                     no_octopus=c['opts'].get('no_octopus', False),
-                    reject=c['opts'].get('reject'))
+                    reject=c['opts'].get('reject'), interfere=hook)
                 scen = 'direct_merge'
+                if hook:
+                    extra['third_party'] = hook.state['log']
             vio = []
             for v in repo.violations:
                 d = GF.cex_data(scen, shape, prs, v, **c['opts'])
@@ -258,6 +269,8 @@ def signature(prop, data):
     label = re.sub(r'foreign ref \S+', 'foreign ref <ref>', label)
     opts = ','.join('%s=%s' % kv for kv in sorted(data['params'].items())
                     if kv[0] in ('no_octopus',) and kv[1])
+    if 'foreign ref' in label:
+        opts = ''           # the call site (scenario) identifies the finding
     tp = data.get('third_party')
     if tp:
         opts += (',' if opts else '') + 'third-party %s' % tp[0][0]
